@@ -29,7 +29,7 @@ CONSTANTS Cmds,       \* command ids
           TO,         \* response timeout (logical ticks; ms in trace validation)
           Ghost,      \* a sender that is nobody's target
           ForeignId,  \* a command id nobody issued
-          Mutant,     \* "none" | "idonly" | "tgtonly" | "nounreg" | "cmdwide" | "inflight"
+          Mutant,     \* "none" | "idonly" | "tgtonly" | "nounreg" | "cmdwide" | "inflight" | "errszero"
           EnqOrders   \* {} : commands are enqueued by the Enqueue action at any time;
                       \* else a set of sequences of commands: everything is enqueued at the start
                       \* in one of these orders (smaller state space, same queue contents)
@@ -210,10 +210,18 @@ PRecv(m) ==
 
 (* ---------------- queue goroutine: collect, consolidate, callback ---------------- *)
 \* all per-target goroutines reported on the semaphore; consolidateResponses; entry.callback <- response
+\* `errs` is the result as its consumers read it (MesosCommandMultiResponse.Errors() by target, Err()
+\* of a single response): the failing targets, each with its own error
+Fails(r) == r.k \in {"timeout", "senderr"} \/ (r.k = "reply" /\ r.m.err)
+ErrOf(r) == [k |-> IF r.k = "reply" THEN "replyerr" ELSE r.k, tok |-> r.m.tok]
 Value(c) ==
-  LET T == tg[c] IN
+  LET T == tg[c]
+      F == {t \in T : Fails(result[<<c, t>>])} IN
   [kind |-> IF T = {} THEN "nil" ELSE IF Cardinality(T) = 1 THEN "single" ELSE "multi",
-   res  |-> [t \in T |-> result[<<c, t>>]]]
+   res  |-> [t \in T |-> result[<<c, t>>]],
+   errs |-> IF Mutant = "errszero" /\ Cardinality(T) >= 2 /\ F # {}
+              THEN [x \in {"-"} |-> ErrOf(result[<<c, CHOOSE t \in F : TRUE>>])]   \* all under an empty target
+              ELSE [t \in F |-> ErrOf(result[<<c, t>>])]]
 
 Deliver(c) ==
   /\ commit[qof[c]] = c
@@ -277,6 +285,9 @@ ValueOK(c) ==
          \/ r.k = "senderr" /\ r.m = NoMsg /\ SendFails(beh[<<c, t>>])
          \/ r.k = "timeout" /\ r.m = NoMsg /\ ~SendFails(beh[<<c, t>>])
          \/ r.k = "reply" /\ r.m \in AllMsgs /\ r.m.id = c /\ r.m.snd = t
+    \* read by target, the result names exactly the targets that failed, each with its own error
+    /\ DOMAIN v.errs = {t \in tg[c] : Fails(v.res[t])}
+    /\ \A t \in DOMAIN v.errs : v.errs[t] = ErrOf(v.res[t])
 OwnAnswer == \A c \in Cmds : DeliverEnabled(c) => ValueOK(c)
 
 \* a reply only ever reaches the call it is addressed to (command id and sender) ...
